@@ -154,6 +154,8 @@ def verify_backtest_run(ex, contract, timeout_ms=30000):
                     up0 = calls[2]
                     ob("first-update-is-the-pre-start-row", And(up0[1].term == strat.term, up0[2][0].eq(Num(dateat_f(0), False, True))), ("C03", "C12"))
                 ob("no-algos-before-the-date-loop", "run" not in names, ("C12", "C16"))
+                # shadow copies are deep-copied inside setup and are not reached by set_commissions/use_integer_positions afterwards
+                ob("settings-not-changed-after-setup", "set_commissions" not in names and "use_integer_positions" not in names, ("C09", "C19", "C07"))
         s = z3.Solver()
         for p in st0.pc:
             s.add(p)
